@@ -95,6 +95,7 @@ class Executor:
         self.log = []
         self.site = 0
         self.shared_site = None
+        self.cur_reclimit = None
 
     # ------------------------------------------------------------------ reference ops
     def ref_ops(self, mid, obs_op, relax=False, as_constants=False):
@@ -136,6 +137,7 @@ class Executor:
             w.begin_op(plan)
             if plan:
                 rec["planned"] = sorted(plan)
+            self.cur_reclimit = reclimit
             try:
                 if reclimit is not None:
                     from optyx.core.autodiff import increased_recursion_limit
@@ -441,6 +443,9 @@ class Executor:
         rec["obs"] = obs
         rec["mid"] = op[1]
         rec["ref"] = self.ref_ops(op[1], op)
+        if self.cur_reclimit is not None:
+            # the reference makes the same observation inside the same user-level `with` block
+            rec["ref"]["ops"][-1] = ["with_reclimit", self.cur_reclimit, rec["ref"]["ops"][-1]]
         if k in ("call", "evaluate") and sh["spec"].get("params"):
             bad = k == "call" and (sh["handles"].get(op[2]) or [None, {}])[1].get("bad_order")
             if not bad:  # (a request that deliberately cannot be compiled has no constants twin to agree with)
